@@ -6,6 +6,6 @@ wt=/var/tmp/seedwt-$$
 git -C /repo worktree add -q --detach $wt HEAD || exit 3
 ( cd $wt && git apply "$patch" ) || { echo "PATCH DOES NOT APPLY"; git -C /repo worktree remove --force $wt; exit 3; }
 for p in "$@"; do
-  (cd /verif && VERIF_REPO=$wt timeout 3000 python3-vt -m mirsym.run --property $p --tier ${TIER:-quick} > /tmp/try_seed_${p}_$$.log 2>&1; echo "$p exit=$?"; grep -E "^VIOLATION|^INCONCLUSIVE|^KNOWN|^  role|quick:|thorough:" /tmp/try_seed_${p}_$$.log | cut -c1-330 | head -8)
+  (cd /verif && mkdir -p /var/tmp/seed-evidence && VERIF_EVIDENCE_DIR=/var/tmp/seed-evidence VERIF_REPO=$wt timeout 3000 python3-vt -m mirsym.run --property $p --tier ${TIER:-quick} > /tmp/try_seed_${p}_$$.log 2>&1; echo "$p exit=$?"; grep -E "^VIOLATION|^INCONCLUSIVE|^KNOWN|^  role|quick:|thorough:" /tmp/try_seed_${p}_$$.log | cut -c1-330 | head -8)
 done
 git -C /repo worktree remove --force $wt
